@@ -27,6 +27,13 @@
 #define KPB (TDS / 16 - 1)
 #define NW (NBLK + 3)		/* window of the block map: ids Q .. Q+NBLK+2 */
 
+static struct struct_io_channel vf_chan;	/* the undo channel under test */
+static struct undo_private_data vf_data;
+/* BIGBLK queries: the modelled device window starts vf_base bytes into the (huge) device: the backing stubs and the block map
+ * window subtract it, so channel block numbers up to 2^40 can be used with a small device array */
+static unsigned long long vf_base;
+static int vf_addr_oob;		/* a backing request below vf_base: asserted to be 0 */
+
 /* ---------------------------------------------------------------- crc (T) */
 /* STUB: ext2fs_crc32c_le is replaced by the left fold s' = rotl(s,1) ^ byte: like crc32c it satisfies crc(crc(s,A),B) == crc(s,A||B), which is all undo_io.c/e2undo.c rely on (the real crc32c is C14's subject). For buffers longer than one undo block (the 508-byte header, the 1024-byte superblock) the stub folds the first CRC_LONG bytes and the length only */
 #define CRC_LONG 96
@@ -58,10 +65,31 @@ static __u32 ref_crc(__u32 crc, unsigned char const *p, size_t len)
 	}
 	return crc;
 }
-static int vf_crc_calls;
+/* T-style trace: every crc call over SAVED DATA (not the key block, not header/superblock) is recorded with its length and
+ * whether it starts a fresh checksum (seed ~0); every data block written to the undo file is recorded with its length */
+#define VF_TRACE_MAX 8
+#ifdef VF_REPLAY
+#define VF_CRC_IS_DATA(p, len) ((const void *) (p) != vf_keyb_ptr && (len) <= TDS)
+#else	/* by buffer identity, so that the classification folds although len is symbolic */
+#define VF_CRC_IS_DATA(p, len) ((const void *) (p) != vf_keyb_ptr && (const void *) (p) != (const void *) &vf_data.hdr && \
+				__CPROVER_OBJECT_SIZE(p) != SUPERBLOCK_SIZE && __CPROVER_OBJECT_SIZE(p) != sizeof(struct ext2_super_block))
+#endif
+static int vf_crc_calls, vf_crc_ndata, vf_uf_ndata;
+static unsigned long long vf_crc_dlen[VF_TRACE_MAX], vf_uf_dlen[VF_TRACE_MAX];
+static unsigned char vf_crc_dfresh[VF_TRACE_MAX];
+static const void *vf_keyb_ptr;		/* set by the harness: the in-memory key block */
 __u32 ext2fs_crc32c_le(__u32 crc, unsigned char const *p, size_t len)
 {
+	int k;
 	vf_crc_calls++;
+	if (VF_CRC_IS_DATA(p, len)) {
+		for (k = 0; k < VF_TRACE_MAX; k++)
+			if (k == vf_crc_ndata) {
+				vf_crc_dlen[k] = len;
+				vf_crc_dfresh[k] = (crc == ~0U);
+			}
+		vf_crc_ndata++;
+	}
 	return ref_crc(crc, p, len);
 }
 
@@ -161,6 +189,9 @@ static errcode_t stub_real_read_blk64(io_channel ch, unsigned long long block, i
 	}
 	size = count < 0 ? (unsigned long long) -(long long) count : (unsigned long long) count * ch->block_size;
 	pos = block * (unsigned long long) ch->block_size;
+	if (pos < vf_base)
+		vf_addr_oob = 1;
+	pos -= vf_base;
 	vf_real_reads++;
 	/* every capture read is one undo block at an undo-block boundary: CHECKED, so the
 	 * copy below can work on whole undo blocks with concrete indices */
@@ -185,6 +216,10 @@ static errcode_t stub_real_read_blk64(io_channel ch, unsigned long long block, i
 static errcode_t stub_real_modify(unsigned long long lo, unsigned long long hi)
 {
 	int p;
+	if (lo < vf_base)
+		vf_addr_oob = 1;
+	lo -= vf_base;
+	hi -= vf_base;
 	PROP(hi <= DEVCAP && lo <= hi, "env: device request inside the modelled device");
 	vf_real_ops++;
 	vf_wlo = lo;
@@ -235,9 +270,6 @@ static struct struct_io_manager stub_real_mgr = {
 	.discard = stub_real_discard, .zeroout = stub_real_zeroout,
 };
 static struct struct_io_channel vf_rchan;
-
-static struct struct_io_channel vf_chan;	/* the undo channel under test */
-static struct undo_private_data vf_data;
 
 /* ------------------------------------------------------------ undo file */
 /* STUB: the undo file is a byte array of UCAP blocks of TDS bytes; the 512-byte header and the 1024-byte superblock copy (blocks 0 and 1 of a real file, where TDS >= 1024) are kept in two separate objects because at the scaled TDS they would overlay the key/data blocks */
@@ -303,6 +335,12 @@ static errcode_t stub_uf_write_blk64(io_channel ch, unsigned long long block, in
 	size = count < 0 ? (unsigned long long) -(long long) count : (unsigned long long) count * TDS;
 	PROP(size >= 1 && size <= TDS && block < UCAP, "env: undo file write is one block inside the modelled file");
 	vf_uf_writes++;
+	if ((const void *) buf != vf_keyb_ptr) {	/* a data block */
+		for (i = 0; i < VF_TRACE_MAX; i++)
+			if (i == vf_uf_ndata)
+				vf_uf_dlen[i] = size;
+		vf_uf_ndata++;
+	}
 	if (block < vf_uf_lowest)
 		vf_uf_lowest = block;
 	for (u = 0; u < UCAP; u++)
